@@ -592,7 +592,7 @@ impl Formatter {
         if self.html {
           format!("<mark class=\"mech-highlight\">{}</mark>", n.to_string())
         } else {
-          format!("!!{}!!", n.to_string())
+          format!("!!{}!!", self.paragraph_element(n))
         }
       },
       ParagraphElement::SectionReference(n) => {
@@ -649,21 +649,21 @@ impl Formatter {
         if self.html {
           format!("<em class=\"mech-em\">{}</em>", n.to_string())
         } else {
-          format!("*{}*", n.to_string())
+          format!("*{}*", self.paragraph_element(n))
         }
       },
       ParagraphElement::Underline(n) => {
         if self.html {
           format!("<u class=\"mech-u\">{}</u>", n.to_string())
         } else {
-          format!("_{}_", n.to_string())
+          format!("_{}_", self.paragraph_element(n))
         }
       },
       ParagraphElement::Strikethrough(n) => {
         if self.html {
           format!("<del class=\"mech-del\">{}</del>", n.to_string())
         } else {
-          format!("~{}~", n.to_string())
+          format!("~{}~", self.paragraph_element(n))
         }
       },
       ParagraphElement::InlineCode(n) => {
